@@ -2,8 +2,8 @@
 # Run the thorough tier of every check once on the unchanged tree; log exit code and wall time.
 cd "$(dirname "$0")/.."
 LOG=${1:-notes/thorough_run.log}
-: > "$LOG"
-for i in $(seq -w 1 20); do
+[ "${FROM:-1}" = "1" ] && : > "$LOG"
+for i in $(seq -w ${FROM:-1} 20); do
   s=$(date +%s)
   /venv/bin/python run_check.py C$i --tier thorough > /tmp/thorough_C$i.out 2>&1
   rc=$?
